@@ -1118,6 +1118,9 @@ func (e *Engine) evalCall(x *Expr, se *SpecEnv) Val {
 	case "iface":
 		// iface(v): the interface value holding v (as produced by converting v to `any`)
 		return e.makeInterface(se.st, arg(0), types.NewInterfaceType(nil, nil))
+	case "asptr":
+		// asptr(r, T): the reference r (an integer, e.g. from a ghost variable) as a pointer to a T object
+		return Val{T: types.NewPointer(e.specType(x.Args[1].Name, se)), L: []Term{arg(0).L[0]}}
 	case "deref":
 		// deref(p, T): the T object an (unsafe) pointer p points to
 		pv := arg(0)
